@@ -105,7 +105,7 @@ structure Copy where
   isNew : Bool := false
   deploy : Bool := false
   redeploy : Bool := false
-deriving Repr, Inhabited
+deriving DecidableEq, Repr, Inhabited
 
 /-- `state.GetAccountState` (Testmode off) -/
 def World.getCopy (w : World) (a : Addr) : Copy :=
